@@ -468,6 +468,8 @@ class MessageManager(interfaces.TokenInterface, interfaces.MessageManager):
             )
             message.mid = None
 
+        piggybacked_on = None
+
         if message.code.is_response():
             no_response = (message.opt.no_response or 0) & (
                 1 << message.code.class_ - 1
@@ -477,6 +479,7 @@ class MessageManager(interfaces.TokenInterface, interfaces.MessageManager):
             if piggyback_key in self._piggyback_opportunities:
                 mid, handle = self._piggyback_opportunities.pop(piggyback_key)
                 handle.cancel()
+                piggybacked_on = mid
 
                 if no_response:
                     new_message = Message(code=EMPTY, mid=mid, mtype=ACK)
@@ -545,7 +548,17 @@ class MessageManager(interfaces.TokenInterface, interfaces.MessageManager):
             self.log.debug("Message to %s put into backlog", message.remote)
             self._backlogs[message.remote].append((message, messageerror_monitor))
         else:
-            self._send_initially(message, messageerror_monitor)
+            try:
+                self._send_initially(message, messageerror_monitor)
+            except Exception:
+                if piggybacked_on is not None:
+                    # The response was to serve as the request's ACK and can
+                    # not be sent; whatever the caller sends instead will be
+                    # a message of its own.
+                    self._send_empty_ack(
+                        message.remote, piggybacked_on, "Response could not be sent"
+                    )
+                raise
 
     def _send_initially(self, message, messageerror_monitor=None):
         """Put the message on the wire for the first time, starting retransmission timeouts"""
